@@ -94,6 +94,23 @@ def _dominates(ctx: Ctx, obs: List[Ob], f: Func, label: str, target_pred: Pred, 
                           "" if ok else why, path))
 
 
+def empty_guards(ctx: Ctx, cfg: CFG, loop: ast.For) -> List[N]:
+    """CFG test nodes of `if L:` / `if len(L) > 0:` whose only purpose is to skip `for x in L: ...` for an empty L
+    (the If's body is exactly that loop, no else): passing the test node is as good as passing the loop."""
+    out: List[N] = []
+    lt = norm(loop.iter)
+    for n in cfg.nodes:
+        st = ctx.model.parent_of(n.ast) if n.kind == "test" and n.ast is not None else None
+        if not isinstance(st, ast.If) or st.test is not n.ast:
+            continue
+        if st.orelse or len(st.body) != 1 or st.body[0] is not loop:
+            continue
+        t = norm(st.test)
+        if t in (lt, f"len({lt}) > 0", f"len({lt}) != 0", f"len({lt}) >= 1", f"{lt} is not None and {lt}"):
+            out.append(n)
+    return out
+
+
 NODE_FIELDS_INIT = ("_data", "_parent", "_tree", "_children", "_data_id", "_node_id", "_meta")
 POST_ORDER_WALKERS = {"Node._iter_post"}
 
@@ -119,6 +136,13 @@ def _iter_is_post_order(ctx: Ctx, f: Func, it: ast.AST) -> Tuple[bool, str]:
     (or a materialised copy of any complete walk)."""
     e = it
     copied = False
+    if isinstance(e, ast.Name):
+        # a local that holds the walk (`nodes = self._iter_post()`): what reaches the loop
+        from .util import reaching_values
+
+        vals = reaching_values(ctx, f, it, e)
+        if len(vals) == 1:
+            e = vals[0]
     if isinstance(e, ast.Call) and isinstance(e.func, ast.Name) and e.func.id in ("list", "tuple") and e.args:
         e = e.args[0]
         copied = True
@@ -390,7 +414,8 @@ def regchk(ctx: Ctx) -> List[Ob]:
         obs.append(ctx.ob("REG-CHK", ["C03"], f, "refusal condition: clone.parent is node.parent", loop, cond_ok,
                           "" if cond_ok else "the scan must compare the parent of every existing clone with the new node's parent by identity"))
         app = P_effect(si, ["append"], [SLOT])
-        _dominates(ctx, obs, f, "clone list is scanned before the node is appended", app, lambda n: n is lp,
+        eg = empty_guards(ctx, cfg, loop)
+        _dominates(ctx, obs, f, "clone list is scanned before the node is appended", app, lambda n: n is lp or any(n is g_ for g_ in eg),
                    ["C03", "C02"], "a same-parent clone would be accepted", "REG-CHK")
         # rollback: between the id-map store and the raise lies the inverse delete
         for r in typed:
@@ -569,7 +594,26 @@ def pair3(ctx: Ctx) -> List[Ob]:
             obs.append(ctx.ob("PAIR-3", ["C02"], f, f"{norm(node)}: old slot is left first", node, ok1,
                               "" if ok1 else "the node stays listed under its old data_id (stale lookup)"))
 
+            def merged_by_setdefault(n: N) -> bool:
+                """`slot = index.setdefault(<new key>, moved)` followed by `if slot is not moved: slot.extend(moved)`:
+                the moved list becomes the slot, or is merged into the existing one."""
+                a_ = n.ast
+                if not (n.kind == "stmt" and isinstance(a_, ast.Assign) and len(a_.targets) == 1 and isinstance(a_.targets[0], ast.Name) and isinstance(a_.value, ast.Call)):
+                    return False
+                c_ = a_.value
+                if not (isinstance(c_.func, ast.Attribute) and c_.func.attr == "setdefault" and norm(c_.func.value).endswith("_nodes_by_data_id") and len(c_.args) == 2
+                        and norm(c_.args[0]) == newv and isinstance(c_.args[1], ast.Name)):
+                    return False
+                slot_, moved_ = a_.targets[0].id, c_.args[1].id
+                for x in iter_own(f.node):
+                    if isinstance(x, ast.If) and norm(x.test) in (f"{slot_} is not {moved_}", f"{moved_} is not {slot_}") \
+                            and any(norm(y) == f"{slot_}.extend({moved_})" for y in x.body):
+                        return cfg.find_path(n, cfg.node_for(x.body[0]) or n) is not None
+                return False
+
             def add_new(n: N) -> bool:
+                if merged_by_setdefault(n):
+                    return True
                 for e2 in si.direct.get(n.id, []):
                     if (e2.op in ("append", "extend") and e2.field == SLOT) or (e2.op == "setitem" and e2.field == "_nodes_by_data_id"):
                         k = _slot_key_text(n.ast, ctx, f)
